@@ -76,7 +76,7 @@ Definition ERR_REG : Z := 10.          (* any error of the module: compared as o
 Definition ERR_REG_NOT_OWNER : Z := 11.
 Definition ERR_REG_UNKNOWN : Z := 12.
 Definition ERR_REG_HEIGHT : Z := 13.
-Definition ERR_REG_MAX : Z := 14.
+Definition ERR_REG_MAX : Z := 54.   (* types.ErrExceedsMaxStorage: the same error the ante decorator returns *)
 
 Definition too_long (n : nat) (s : string) : bool := Nat.ltb n (String.length s).
 Definition is_empty (s : string) : bool := Nat.eqb (String.length s) 0.
